@@ -17,6 +17,7 @@ FIXED = [
  ("C11", "read/mismatch", "fix: a failed index dump keeps", "failed index dump (index file cannot be written) empties the in-memory index: all records of the blob NotFound until restart"),
  ("C11", "read_all_with_deletion_marker/len", "fix: index regeneration rejects a tail", "tail record cut inside meta/data (torn write, failed second buffer) is indexed by the start-up scan when data validation is off"),
  ("C11", "read_all_with_deletion_marker/load-err", "fix: existing blobs are opened for positional", "reopened blobs use O_APPEND: after a failed/short write every later acknowledged record lands at another offset than its header says and is unreadable"),
+ ("C14", "cancel/restore/after-drop/read/mismatch", "fix: restore_active_blob loads the index before", "try_restore_active_blob dropped while the index is loaded loses the blob taken out of the closed list (regression of the first restore fix, found by the cancellation sweep)"),
  ("C15", "blobs_count/mismatch", "fix: HierarchicalFilters::len", "blobs_count counts empty slots after restore (2 with one blob file)"),
  ("C15", "disk_used/mismatch", "fix: disk_used counts", "disk_used omits an index file that exists while its index is in memory"),
  ("C07", "harm/blob-id-reused", "fix: blob ids of quarantined", "id of a quarantined blob is reused for a new blob after a restart (a later quarantine would overwrite the saved file)"),
@@ -27,6 +28,8 @@ FIXED = [
  ("C12", "sync/explicit-fsyncdata-noop", "fix: Storage::fsyncdata always", "explicit fsyncdata() issues no sync below the dirty-byte limit"),
 ]
 OPEN = [
+ ("C14", "cancel/delete-partially-applied", "a delete future dropped between delete_in_active and the end of delete_in_closed has appended its marker to the active blob (and possibly some closed blobs) but not to the remaining closed blobs in which the key is live; a later delete(only_if_presented) or a restart makes the difference observable"),
+ ("C14", "cancel/create-leaves-partial-blob", "dropping try_create_active_blob (or a write/delete that has to create the active blob) before the blob header is written leaves an empty or header-less *.blob file; the next start quarantines it (corrupted_blobs_count = 1) although no data is involved"),
  ("C11", "fault/failed-write-resurrected-after-index-regeneration", "a write that returned Err after its header (or the whole record) had reached the blob file is indexed by the next start-up scan when the index file is missing/stale and data validation is off: contains/read_all list it although it was reported as failed (read of its data fails the checksum unless the whole record was written)"),
  ("C16", "validate_blob/accepts-flip/blob-header-version", "validate_blob ignores the blob header's version field (validate_without_version): any bit flip in bytes 8..12 of a blob is accepted"),
  ("C16", "validate_blob/accepts-flip/blob-header-flags", "no check covers the blob header's flags field: any bit flip in bytes 12..20 of a blob is accepted by validate_blob (and by the storage)"),
